@@ -15,13 +15,15 @@ TraceInit == tid \in 1..Len(Traces) /\ l = 1 /\ Init
 Ev == Traces[tid].events[l]
 IsEvent(name) == l <= Len(Traces[tid].events) /\ Ev.act = name /\ l' = l + 1 /\ UNCHANGED tid
 Logged == /\ served' = << Ev.served[1], Ev.served[2], Ev.served[3] >>
-          /\ ServesWhatWasAsked' /\ ScaledOnce'       \* invariants as guards (a violated INVARIANT would stop the whole batch)
 TConstruct == IsEvent("Construct") /\ Construct(Ev.d, Ev.p, Ev.f) /\ Logged
 TQuery     == IsEvent("Query") /\ Query(Ev.d, Ev.p) /\ Logged
 TRead      == IsEvent("Read") /\ Read /\ Logged
 TraceNext == TConstruct \/ TQuery \/ TRead
 TraceSpec == TraceInit /\ [][TraceNext]_tvars
-Progress == LET f == TLCGet(1) IN IF f[tid] < l THEN TLCSet(1, [f EXCEPT ![tid] = l]) ELSE TRUE
+(* a state that violates an invariant is pruned and does not count as progress (an INVARIANT in the cfg would stop
+   the whole batch at the first violation; priming the invariants into the actions is an order of magnitude slower) *)
+TraceInv == ServesWhatWasAsked /\ ScaledOnce
+Progress == TraceInv /\ (LET f == TLCGet(1) IN IF f[tid] < l THEN TLCSet(1, [f EXCEPT ![tid] = l]) ELSE TRUE)
 Accepted == LET f == TLCGet(1) IN
             \A t \in 1..Len(Traces) : \/ f[t] = Len(Traces[t].events) + 1
                                       \/ PrintT(<<"REJECTED", t, f[t]>>) /\ FALSE
